@@ -89,6 +89,11 @@ def defs_all():
     add("discr-derives", Item("E", [Variant("A", "tuple", [Field("u8")]), Variant("B", "unit")],
                               dmetas=[DM("name", "Kind"), DM("derive", paths=["SP::EnumIter", "SP::EnumString", "SP::Display", "Hash"]), DM("vis", "pub")]),
         ["EnumDiscriminants"])
+    # only NON-strum derives requested for the discriminant enum: nothing there registers the `strum` helper attribute, so the
+    # generator must not forward #[strum(crate = ..)] to it on its own
+    add("discr-std-derives", Item("E", [Variant("A", "tuple", [Field("u8")]), Variant("B", "unit"), Variant("C", "named", [Field("u8", "x")])],
+                                  dmetas=[DM("derive", paths=["Hash", "PartialOrd", "Ord"])]),
+        ["EnumDiscriminants"])
     add("phf", Item("E", unit3() + [Variant("Ci", "unit", [], [aci(True, explicit=False)])], metas=[EM("phf")]), ["EnumString"])
     add("empty", Item("E", []), ["EnumString", "Display", "AsRefStr", "VariantNames", "EnumIter", "EnumCount", "EnumIs", "EnumTryAs", "FromRepr",
                                  "VariantArray"])   # EnumDiscriminants / EnumMessage / EnumProperty emit `match <&E> {}` on a zero-variant enum, which rustc rejects (no value exists; recorded in DESIGN.md)
@@ -100,7 +105,7 @@ def defs_all():
 def with_crate(it, path):
     it2 = copy.deepcopy(it)
     it2.metas = list(it2.metas) + [EM("crate", path)]
-    if any(m.kind == "derive" for m in it2.dmetas):
+    if any(m.kind == "derive" and any("SP::" in p_ or "strum" in p_ for p_ in m.paths) for m in it2.dmetas):
         it2.dmetas = list(it2.dmetas) + [DM("other", 'strum(crate = "%s")' % path)]
     return it2
 
